@@ -7,7 +7,7 @@ wt=/tmp/trial-wt-$id
 git -C /repo worktree remove --force $wt 2>/dev/null
 git -C /repo worktree add -q --detach $wt HEAD || exit 2
 git -C $wt apply $d/patch.diff || { echo "patch does not apply"; git -C /repo worktree remove --force $wt; exit 2; }
-/verif/check.sh $prop $tier --no-evidence --repo $wt "$@" > /tmp/trial-$id.out 2>&1; rc=$?
+/verif/check.sh $prop $tier --no-evidence --repo $wt --work work-trial "$@" > /tmp/trial-$id.out 2>&1; rc=$?
 git -C /repo worktree remove --force $wt
 grep -E "^(VIOLATION|KNOWN-FINDING|OK|INCONCLUSIVE)" /tmp/trial-$id.out | cut -c1-260 | head -6
 echo "$id exit=$rc"
